@@ -447,7 +447,7 @@ func (u *UDPServerTransport) receiveMessage() {
 func (u *UDPServerTransport) startParseMessage() {
 	for {
 		sized_byte_array := <-u.msgParseChannel
-		reader := bufio.NewReaderSize(bytes.NewBuffer(sized_byte_array.b), sized_byte_array.n)
+		reader := bufio.NewReaderSize(bytes.NewBuffer(sized_byte_array.b[:sized_byte_array.n]), sized_byte_array.n)
 		msg, err := ParseMessage(reader)
 		u.msgBufPool.Free(sized_byte_array.b)
 		vt("udp.parse", u, sized_byte_array.b, sized_byte_array.n, err == nil)
